@@ -4,7 +4,7 @@
    sliding evaluation (add entering rows, retract leaving rows) equals recomputation over the frame.
    The GROUPS state machine (deque of group ends, prune_state) is modelled exactly and tied/tested against the
    definition, but its equality with the definition is not proved. *)
-From DF Require Import Base.Prelude Model.WindowFrame Proofs.WindowFrameProofs.
+From DF Require Import Base.Prelude Model.WindowFrame Model.WindowFrameGroups Proofs.WindowFrameProofs.
 From Coq Require Import Lia.
 Open Scope Z_scope.
 
@@ -44,6 +44,14 @@ Theorem C09_range_resume :
     (forall j, (j < s)%nat -> ext_lt (nth j ps PInf) (lo_of (fstart f) (nth i ps PInf)) = true) /\
     (forall j, (j < e)%nat -> ext_le (nth j ps PInf) (hi_of (fend f) (nth i ps PInf)) = true).
 Proof. exact delimits_resume. Qed.
+
+(* ... also when that earlier frame was computed on a shorter buffer (streaming: fewer rows had arrived). *)
+Theorem C09_range_resume_prefix :
+  forall f ps m i' i s e,
+    sorted_pos ps -> (i' < m <= length ps)%nat -> (i' <= i < length ps)%nat -> delimits f (firstn m ps) i' s e ->
+    (forall j, (j < s)%nat -> ext_lt (nth j ps PInf) (lo_of (fstart f) (nth i ps PInf)) = true) /\
+    (forall j, (j < e)%nat -> ext_le (nth j ps PInf) (hi_of (fend f) (nth i ps PInf)) = true).
+Proof. exact delimits_resume_prefix. Qed.
 
 (* RANGE, whole partition processed row by row with last_range threaded through (aggregate_evaluate): every row's
    range is the declarative frame. *)
@@ -87,6 +95,12 @@ Theorem C09_frame_values :
   forall (l : list (option Z)) d n s, (s + n <= length l)%nat ->
     map (fun j => nth j l d) (seq s n) = slice l s (s + n).
 Proof. exact (@frame_values_slice (option Z)). Qed.
+
+(* GROUPS (bounded, exhaustive -- NOT a general proof): for every partition of at most 7 rows over the keys {0, 1, NULL}
+   (every pattern of equal/different neighbours) and every valid GROUPS frame with offsets at most 3, the state machine
+   run over the whole partition returns exactly the declarative frame of every row. *)
+Theorem C09_groups_eq_def_bounded : groups_exhaustive 7 3 = true.
+Proof. vm_compute. reflexivity. Qed.
 
 (* The implementation (as modelled, and as observed: listed findings) leaves the definition outside the stated
    hypotheses: (1) ROWS .. n FOLLOWING with idx + n + 1 >= 2^64 overflows usize; *)
